@@ -114,6 +114,22 @@ fn soup_case(rng: &mut Rng) -> Option<(Case, &'static str)> {
 
 pub fn run_c05(a: &Args, rep: &mut Report) {
     let mut rng = Rng::derive(a.seed, a.shard, 5);
+    // a few very long accepted programs (far jumps and far local calls)
+    if !cfg!(miri) && a.shard < 6 {
+        for n in [40_000usize, 70_000] {
+            let nn = n + rng.below(500) as usize;
+            let c = genp::gen_long(&mut rng, nn, a.shard);
+            if accepted(c.kind, &c.prog) {
+                let bufs = Bufs::new(&c);
+                let ir = run_interp(&c, &bufs, 400_000, 0);
+                rep.case(Some(c.hash()));
+                rep.set("origins", "long");
+                if let Ran::Panic(m) = &ir.ran {
+                    rep.violation(&format!("C05:panic:{}:long-program", sys::panic_site(m)), format!("interpreter panicked on a verifier-accepted {}-instruction program ({}): {m}", c.prog.len() / 8, c.class), json!({"kind": "exec-case", "case": {"class": c.class, "len": c.prog.len() / 8, "calc": c.calc.to_json()}, "interp": ir.ran.short()}));
+                }
+            }
+        }
+    }
     let q = a.tier == "quick";
     let n = ((if q { 1_600_000.0 } else { 80_000_000.0 }) * a.scale) as u64 / a.nshards;
     let mut k = 0u64;
@@ -282,7 +298,16 @@ pub fn run_c12(a: &Args, rep: &mut Report) {
                 v.push(Insn::new(0xc7, 7, 0, 0, 1)); // 4 bytes
             }
             v.push(Insn::new(EXIT, 0, 0, 0, 0));
-            cases.push((Case::new(Kind::NoData, encode_prog(&v), "size-residue-sweep"), "size-residue-sweep"));
+            // the prologue differs per VM kind: one kind per residue, rotating
+            let kind = crate::engines::KINDS[(sres / a.nshards as usize + a.seed as usize) % 4];
+            let mut c = Case::new(kind, encode_prog(&v), "size-residue-sweep");
+            if kind != Kind::NoData {
+                c.pkt = vec![1, 2, 3, 4, 5, 6, 7, 8];
+            }
+            if kind == Kind::Mbuff {
+                c.mbuff = vec![0; 16];
+            }
+            cases.push((c, "size-residue-sweep"));
             if cases.len() >= 32 {
                 flush(rep, &mut cases);
             }
@@ -317,7 +342,7 @@ fn check_batch_c12(rep: &mut Report, cases: &[(Case, &'static str)], nostd: bool
         let p = &pres[i];
         let runnable = matches!(p.rr.outcome, Outcome::Value(_)) && matches!(p.ir.ran, Ran::Ok(_)) && !p.rr.neg_ldabs;
         for e in &engines {
-            if *e == Engine::Cranelift && c.prog.len() / 8 > 100_000 {
+            if *e == Engine::Cranelift && (c.prog.len() / 8 > 100_000 || c.class == "size-residue-sweep") {
                 out.extend_from_slice(&[9, 9, 9]);
                 continue;
             }
